@@ -19,7 +19,12 @@
 (*              ; DecReadersCount (Dec, cacheLock: release if closed and 0)  *)
 (*   cleaner  = cleanCache (Clean, cacheLock: release pending files nobody   *)
 (*              reads, evict expired entries -> release or pending)          *)
-(*   close()  = CloseMgr (cacheLock; CleanStop closed / handler finalised)   *)
+(*   close()  = CloseMark ; CloseCollect -- `closed = true` and "collect and  *)
+(*              empty the cache maps" are two steps of ONE critical section  *)
+(*              (cacheLock stays held in between: CloseHeld); the constant   *)
+(*              SplitClose = TRUE describes the broken variant in which the  *)
+(*              lock is dropped between them (TLC then finds the double      *)
+(*              release; used as a sensitivity self-test only)               *)
 (*   fsFile.Release() = ReleaseStart ; RelClose(main) ; RelClose(pooled)*    *)
 (* A manager that starts closed (InitClosed) is the noopCacheManager         *)
 (* (FS.SkipCache): nothing is cached, the last reader releases.             *)
@@ -28,7 +33,7 @@
 (***************************************************************************)
 EXTENDS Integers, FiniteSets, TLC
 
-CONSTANTS Reqs, Files, Handles, Paths, Kinds, InitClosed
+CONSTANTS Reqs, Files, Handles, Paths, Kinds, InitClosed, SplitClose
 Nil == 0
 ASSUME Nil \notin Reqs /\ Nil \notin Files /\ Nil \notin Handles /\ Nil \notin Paths
 
@@ -39,6 +44,7 @@ VARIABLES
   cache,     \* [Keys -> Files \cup {Nil}]   the four cache maps of inMemoryCacheManager
   pending,   \* SUBSET Files                 cm.pendingFiles
   closed,    \* cm.closed
+  collected, \* close() has collected the cached / pending files and emptied the cache maps
   readers,   \* [Files -> Int]               fsFile.readersCount
   fst,       \* [Files -> {"none","live"}]   fsFile object exists
   big,       \* [Files -> BOOLEAN]           fsFile.isBig()
@@ -57,17 +63,17 @@ VARIABLES
   badRead,   \* history: some Read was issued on a handle that was not open
   badClose   \* history: a handle was closed while a response was using the file
 
-vars == <<cache, pending, closed, readers, fst, big, mainh, pool, marks, nrel, relset, hst,
+vars == <<cache, pending, closed, collected, readers, fst, big, mainh, pool, marks, nrel, relset, hst,
           ccount, pc, rkey, rfile, rh, held, badRead, badClose>>
 
-cmVars   == <<cache, pending, closed, readers, marks>>
+cmVars   == <<cache, pending, closed, collected, readers, marks>>
 fileVars == <<fst, big, mainh, pool, nrel, relset>>
 hVars    == <<hst, ccount>>
 reqVars  == <<pc, rkey, rfile, rh, held>>
 histVars == <<badRead, badClose>>
 
 Init ==
-  /\ cache = [k \in Keys |-> Nil] /\ pending = {} /\ closed = InitClosed
+  /\ cache = [k \in Keys |-> Nil] /\ pending = {} /\ closed = InitClosed /\ collected = InitClosed
   /\ readers = [f \in Files |-> 0] /\ fst = [f \in Files |-> "none"]
   /\ big = [f \in Files |-> FALSE] /\ mainh = [f \in Files |-> Nil]
   /\ pool = [f \in Files |-> {}] /\ marks = [f \in Files |-> 0] /\ nrel = [f \in Files |-> 0]
@@ -79,12 +85,16 @@ Init ==
 
 Cached == { cache[k] : k \in Keys } \ {Nil}
 
+\* cacheLock is held by close() between its two steps: no other critical section may run
+CloseHeld == closed /\ ~collected /\ ~SplitClose
+
 \* responses that currently use file f (hold a reference taken by Lookup / Insert)
 Users(f) == { r \in Reqs : rfile[r] = f /\ pc[r] \in {"have", "reading", "closing"} }
 
 -----------------------------------------------------------------------------
 (* GetFileFromCache, under cacheLock *)
 Lookup(r, k, p) ==
+  /\ ~CloseHeld
   /\ pc[r] = "start"
   /\ rkey' = [rkey EXCEPT ![r] = <<k, p>>]
   /\ LET f == IF closed THEN Nil ELSE cache[<<k, p>>] IN
@@ -94,7 +104,7 @@ Lookup(r, k, p) ==
        ELSE /\ readers' = [readers EXCEPT ![f] = @ + 1]
             /\ rfile' = [rfile EXCEPT ![r] = f]
             /\ pc' = [pc EXCEPT ![r] = "have"]
-  /\ UNCHANGED <<cache, pending, closed, marks, fileVars, hVars, rh, held, histVars>>
+  /\ UNCHANGED <<cache, pending, closed, collected, marks, fileVars, hVars, rh, held, histVars>>
 
 (* miss phase: openFSFile / compressAndOpenFSFile / openIndexFile / createDirIndex open,
    stat, read and close files; the one that becomes fsFile.f stays open *)
@@ -132,6 +142,7 @@ Read(r, h) ==
 (* newFSFile / createDirIndex / newCompressedFSFileCache build the fsFile f (main handle h or
    none), then SetFileToCache under cacheLock *)
 Insert(r, f, h, b) ==
+  /\ ~CloseHeld
   /\ pc[r] = "miss" /\ fst[f] = "none"
   /\ h \in held[r] \cup {Nil}
   /\ held[r] \ {h} = {}            \* everything else opened on the way has been closed
@@ -157,7 +168,7 @@ Insert(r, f, h, b) ==
             /\ rfile' = [rfile EXCEPT ![r] = cache[key]]
             /\ marks' = [marks EXCEPT ![f] = @ + 1]
             /\ UNCHANGED cache
-  /\ UNCHANGED <<pending, closed, pool, nrel, relset, hVars, rkey, rh, histVars>>
+  /\ UNCHANGED <<pending, closed, collected, pool, nrel, relset, hVars, rkey, rh, histVars>>
 
 (* fsFile.bigFileReader, pop under bigFilesLock *)
 TakeReader(r, h) ==
@@ -194,6 +205,7 @@ ReaderDrop(r) ==
 
 (* DecReadersCount under cacheLock: by a reader's Close, by the 304 path, after a NewReader error *)
 Dec(r) ==
+  /\ ~CloseHeld
   /\ pc[r] \in {"have", "closing"}
   /\ LET f == rfile[r] IN
        /\ readers' = [readers EXCEPT ![f] = @ - 1]
@@ -202,11 +214,12 @@ Dec(r) ==
                /\ pending' = pending \ {f}
           ELSE UNCHANGED <<marks, pending>>
   /\ pc' = [pc EXCEPT ![r] = "done"]
-  /\ UNCHANGED <<cache, closed, fileVars, hVars, rkey, rfile, rh, held, histVars>>
+  /\ UNCHANGED <<cache, closed, collected, fileVars, hVars, rkey, rfile, rh, held, histVars>>
 
 (* cleanCache under cacheLock; E = the cache entries whose age exceeds CacheDuration
    (time is not modelled: any set of entries may have expired) *)
 Clean(E) ==
+  /\ ~CloseHeld
   /\ ~closed
   /\ E \subseteq { k \in Keys : cache[k] # Nil }
   /\ LET relP == { f \in pending : readers[f] = 0 }
@@ -216,22 +229,30 @@ Clean(E) ==
        /\ marks' = [f \in Files |-> marks[f] + (IF f \in relP THEN 1 ELSE 0)
                                              + (IF f \in ev0 THEN 1 ELSE 0)]
   /\ cache' = [k \in Keys |-> IF k \in E THEN Nil ELSE cache[k]]
-  /\ UNCHANGED <<closed, readers, fileVars, hVars, reqVars, histVars>>
+  /\ UNCHANGED <<closed, collected, readers, fileVars, hVars, reqVars, histVars>>
 
 CleanReleased(E) == Cardinality({ f \in pending : readers[f] = 0 })
                     + Cardinality({ f \in { cache[k] : k \in E } : readers[f] = 0 })
 
-(* inMemoryCacheManager.close under cacheLock (CleanStop closed, Close(), handler finalised) *)
-CloseMgr ==
+(* inMemoryCacheManager.close (CleanStop closed, Close(), handler finalised): under cacheLock
+   first `cm.closed = true` ... *)
+CloseMark ==
   /\ ~closed
   /\ closed' = TRUE
+  /\ UNCHANGED <<cache, pending, collected, readers, marks, fileVars, hVars, reqVars, histVars>>
+
+(* ... then collectAllFilesToReleaseNolock: every cached or pending file is released or, when it
+   still has readers, parked in pendingFiles; the cache maps are emptied *)
+CloseCollect ==
+  /\ closed /\ ~collected
+  /\ collected' = TRUE
   /\ LET c0 == { f \in Cached : readers[f] = 0 }
          p0 == { f \in pending : readers[f] = 0 } IN
        /\ pending' = (Cached \cup pending) \ (c0 \cup p0)
        /\ marks' = [f \in Files |-> marks[f] + (IF f \in c0 THEN 1 ELSE 0)
                                              + (IF f \in p0 THEN 1 ELSE 0)]
   /\ cache' = [k \in Keys |-> Nil]
-  /\ UNCHANGED <<readers, fileVars, hVars, reqVars, histVars>>
+  /\ UNCHANGED <<closed, readers, fileVars, hVars, reqVars, histVars>>
 
 CloseReleased == Cardinality({ f \in Cached : readers[f] = 0 })
                  + Cardinality({ f \in pending : readers[f] = 0 })
@@ -243,7 +264,7 @@ ReleaseStart(f) ==
   /\ marks' = [marks EXCEPT ![f] = @ - 1]
   /\ nrel' = [nrel EXCEPT ![f] = @ + 1]
   /\ relset' = [relset EXCEPT ![f] = ({mainh[f]} \ {Nil}) \cup (IF big[f] THEN pool[f] ELSE {})]
-  /\ UNCHANGED <<cache, pending, closed, readers, fst, big, mainh, pool, hVars, reqVars, histVars>>
+  /\ UNCHANGED <<cache, pending, closed, collected, readers, fst, big, mainh, pool, hVars, reqVars, histVars>>
 
 RelClose(f, h) ==
   /\ h \in relset[f]
@@ -261,7 +282,7 @@ Next ==
        \/ \E f \in Files, h \in Handles \cup {Nil}, b \in BOOLEAN : Insert(r, f, h, b)
        \/ MissFail(r) \/ ReaderPut(r) \/ ReaderDrop(r) \/ Dec(r)
   \/ \E E \in SUBSET Keys : Clean(E)
-  \/ CloseMgr
+  \/ CloseMark \/ CloseCollect
   \/ \E f \in Files : ReleaseStart(f) \/ \E h \in Handles : RelClose(f, h)
 
 Spec == Init /\ [][Next]_vars
@@ -270,7 +291,7 @@ Spec == Init /\ [][Next]_vars
 (* Properties (C25) *)
 
 TypeOK ==
-  /\ cache \in [Keys -> Files \cup {Nil}] /\ pending \subseteq Files /\ closed \in BOOLEAN
+  /\ cache \in [Keys -> Files \cup {Nil}] /\ pending \subseteq Files /\ closed \in BOOLEAN /\ collected \in BOOLEAN
   /\ readers \in [Files -> Int] /\ marks \in [Files -> Nat] /\ nrel \in [Files -> Nat]
   /\ hst \in [Handles -> {"unopened", "open", "closed"}] /\ ccount \in [Handles -> Nat]
   /\ pc \in [Reqs -> {"start", "miss", "have", "reading", "closing", "done"}]
@@ -301,7 +322,7 @@ Structure ==
   /\ \A k1, k2 \in Keys : (cache[k1] # Nil /\ cache[k1] = cache[k2]) => k1 = k2
   /\ pending \cap Cached = {}
   /\ \A f \in Files : (marks[f] > 0 \/ nrel[f] > 0) => (f \notin Cached /\ f \notin pending)
-  /\ closed => Cached = {}
+  /\ collected => (closed /\ Cached = {})
   /\ \A f \in Files : nrel[f] = 0 => \A h \in pool[f] : hst[h] = "open"
 
 Quiescent == /\ \A r \in Reqs : pc[r] \in {"start", "done"}
@@ -309,7 +330,7 @@ Quiescent == /\ \A r \in Reqs : pc[r] \in {"start", "done"}
 
 \* after the manager was closed and everything in flight finished, every handle that was
 \* opened has been closed (and, by CloseOnce, exactly once)
-NoLeak == (closed /\ Quiescent) => \A h \in Handles : hst[h] # "open" /\ (hst[h] = "closed" => ccount[h] = 1)
+NoLeak == (collected /\ Quiescent) => \A h \in Handles : hst[h] # "open" /\ (hst[h] = "closed" => ccount[h] = 1)
 
 \* ... and without a close nothing is lost either: an open handle belongs to a cached or
 \* pending file, or to a request in flight, or to a Release() in progress
